@@ -1682,3 +1682,29 @@ Proof.
     exact (proj2 (range_no_widening ty (b0 :: base') r ps ltac:(discriminate) Hr) v Hin).
   - exact (IH base eff H v Hv).
 Qed.
+
+(* ---------------------------------------------------------------------------------------------
+   10. a derived type that restates nothing inherits the restriction of its base whole
+   --------------------------------------------------------------------------------------------- *)
+(* typedefs without a range / length statement of their own (for strings also: with only a pattern, where the C code
+   copies the length with lysc_range_dup) leave every part of the inherited restriction in place *)
+Theorem chain_inherits_all ty base k : compile_chain ty base (repeat None k) = Ok base.
+Proof. induction k as [|k IH]; cbn [repeat compile_chain]; [reflexivity|exact IH]. Qed.
+
+Theorem chain_skip_unrestricted ty base rs1 rs2 :
+  compile_chain ty base (rs1 ++ None :: rs2) = compile_chain ty base (rs1 ++ rs2).
+Proof.
+  revert base. induction rs1 as [|[r|] rs1 IH]; intro base; cbn [app compile_chain]; [reflexivity| |exact (IH base)].
+  destruct (compile_range ty base r) as [ps|e]; [exact (IH ps)|reflexivity].
+Qed.
+
+(* regression witness (seeded change: the copy kept only the FIRST part): with the length 1..3 | 6..8 | 12 the
+   truncated copy rejects the length 6, and the legal narrowing 2..3 | 6..7 no longer compiles under it *)
+Lemma first_part_copy_differs :
+  let base := [(1, 3); (6, 8); (12, 12)]%Z in
+  let narrow := bs [50; 46; 46; 51; 32; 124; 32; 54; 46; 46; 55] in
+  compile_chain RLen base [None] = Ok base /\
+  validate_range base 6 = true /\ validate_range (firstn 1 base) 6 = false /\
+  compile_chain RLen base [None; Some narrow] = Ok [(2, 3); (6, 7)]%Z /\
+  compile_range RLen (firstn 1 base) narrow = Err E_BASE.
+Proof. cbv zeta. repeat split; vm_compute; reflexivity. Qed.
